@@ -579,6 +579,78 @@ def shrinking_loop_bounded(body, comp):
     return None
 
 
+def dividing_loop_bounded(body, comp):
+    """`while n != 0 { … n /= c; }` (c a constant >= 2): inside the loop the local n is only ever assigned n / c, every
+    turn passes through that assignment and through a test of n against 0 that can leave the loop. n strictly
+    decreases while it is positive, so the loop makes at most log_c(n) + 1 turns. Returns the local or None."""
+    comp_set = set(comp)
+    blocks = body["blocks"]
+
+    def opl(o):
+        x = o.get("copy") or o.get("move")
+        return x["l"] if x and not x["p"] else None
+    cands = {}
+    other_writes = set()
+    for b in comp:
+        for st in blocks[b]["stmts"]:
+            if st["k"] != "assign" or st["place"]["p"]:
+                continue
+            l, rv = st["place"]["l"], st["rv"]
+            if rv.get("k") == "binop" and rv["op"] == "Div" and opl(rv["a"]) == l and rv["b"].get("const") \
+                    and rv["b"]["const"].get("kind") == "int" and int(rv["b"]["const"]["v"]) >= 2:
+                cands.setdefault(l, set()).add(b)
+            else:
+                other_writes.add(l)
+        tm = blocks[b]["term"]
+        if tm["k"] == "call" and tm.get("dest") and not tm["dest"]["p"]:
+            other_writes.add(tm["dest"]["l"])
+    for n, div_blocks in cands.items():
+        if n in other_writes:
+            continue
+        # references to n taken inside the loop could write through them
+        if any(st["k"] == "assign" and st["rv"].get("k") in ("ref", "rawptr") and st["rv"]["place"]["l"] == n
+               for b in comp for st in blocks[b]["stmts"]):
+            continue
+        rest = comp_set - div_blocks
+
+        def succ(x, rest=rest):
+            return [w for w in successors(body, x) if w in rest]
+        if _sccs_of(rest, succ):
+            continue
+        # a zero test on n with an edge out of the loop, on every cycle
+        tests = set()
+        for b in comp:
+            tm = blocks[b]["term"]
+            if tm["k"] != "switch":
+                continue
+            d = opl(tm["discr"])
+            for st in blocks[b]["stmts"]:
+                if st["k"] == "assign" and not st["place"]["p"] and st["place"]["l"] == d and st["rv"].get("k") == "binop" \
+                        and st["rv"]["op"] in ("Ne", "Eq", "Gt", "Lt"):
+                    a, c = st["rv"]["a"], st["rv"]["b"]
+                    zero = lambda o: o.get("const") and o["const"].get("kind") == "int" and int(o["const"]["v"]) == 0
+
+                    def is_n(o):
+                        l = opl(o)
+                        if l == n:
+                            return True
+                        return any(s2["k"] == "assign" and not s2["place"]["p"] and s2["place"]["l"] == l and s2["rv"].get("k") == "use"
+                                   and opl(s2["rv"]["op"]) == n for s2 in blocks[b]["stmts"])
+                    if (is_n(a) and zero(c)) or (zero(a) and is_n(c)):
+                        if any(t not in comp_set for t in [t3 for _, t3 in tm["targets"]] + [tm["otherwise"]]):
+                            tests.add(b)
+        if not tests:
+            continue
+        rest2 = comp_set - tests
+
+        def succ2(x, rest2=rest2):
+            return [w for w in successors(body, x) if w in rest2]
+        if _sccs_of(rest2, succ2):
+            continue
+        return n
+    return None
+
+
 def _is_len_local(body, l):
     """the local is only ever assigned the result of a std `len()`-like call (or a copy of such a local)"""
     ok_any = False
@@ -624,7 +696,8 @@ def unbounded_loops(body, prog=None, key=None):
                     hdr = b
                     break
         if hdr is None:
-            if counter_loop_bounded(body, comp) is None and shrinking_loop_bounded(body, comp) is None:
+            if counter_loop_bounded(body, comp) is None and shrinking_loop_bounded(body, comp) is None \
+                    and dividing_loop_bounded(body, comp) is None:
                 bad.append(comp)
             return
         rest = set(comp) - {hdr}
